@@ -90,6 +90,7 @@ def run(ctx, rep):
     _PRS.escapes(rep, lib)
     _PRS.ws_struct(rep, lib)
     _PRS.input_decides(rep, lib)
+    _PRS.reader_state(rep, lib)   # out(A.B) = out(A).out(B): the reader keeps nothing of A's content
     # concatenation of inputs given as files: the files are read in the order of the arguments, a directory in place
     # (shared with C17)
     from rules import c17 as _c17
